@@ -4,18 +4,26 @@
 (* exactly the handler registered for the tuple of dynamic types.          *)
 (*                                                                         *)
 (* Written from the property statement (and the Loki contract the headers  *)
-(* cite), not from xtl's code.  One dispatcher object per execution:       *)
-(*   reg  : the registration table, a function from tuples of classes to   *)
-(*          handler ids (0 = no handler registered for that tuple);        *)
-(*   hist : the registration history (Insert/Erase events in order);       *)
+(* cite), not from xtl's code.  An execution owns up to two dispatcher     *)
+(* objects of one kind (slot 1 always exists, slot 2 is a copy made by     *)
+(* Clone):                                                                 *)
+(*   reg, reg2 : the registration tables, functions from tuples of classes *)
+(*          to handler ids (0 = no handler registered for that tuple);     *)
+(*   has2 : whether the second dispatcher object is alive;                 *)
+(*   seen : the classes that have been named in a registration so far;     *)
+(*   hist : the history of the calls that change a table, in order;        *)
 (*   cfg  : which dispatcher this execution is about (kind, arity, number  *)
-(*          of undispatched arguments, number of classes in use).          *)
+(*          of undispatched arguments, number of classes in use, build     *)
+(*          flavour "exc" | "noexc" (XTL_NO_EXCEPTIONS)).                  *)
 (* Every public call is one action; its C++ arguments are the action       *)
 (* parameters and are recorded, with the expected outcome, in the ghost    *)
-(* variable last; pre is the table before the call.                        *)
+(* variable last; pre holds the tables before the call.                    *)
 (*                                                                         *)
 (* Classes are numbered 1=A 2=B 3=C 4=Base 5=D; A, B, C derive from Base,   *)
-(* D derives from A.  Objects are numbered 10*class + n.                    *)
+(* D derives from A.  Objects are numbered 10*class + n.  (The kinds        *)
+(* vmap_dyn / vfast_dyn use a second hierarchy with a virtual base:        *)
+(* 1=A 2=B derive virtually from 4=Base, 3=C derives from A and B; the     *)
+(* functor dispatchers' specification does not depend on the hierarchy.)   *)
 (*                                                                         *)
 (* Outcome of a call:                                                       *)
 (*   [exc |-> "none", val |-> [calls, ret, rep, h, sig, dyn, objs, tg, xv,  *)
@@ -28,9 +36,13 @@
 (*       undispatched arguments it received, xid "they were the caller's   *)
 (*       objects", ret the value the call returned (the handler's return   *)
 (*       value), rep = 0 (no error was reported);                          *)
-(*   [exc |-> "exception" | "on_error" | "catch_all", val |-> [calls |-> 0, *)
-(*       ret, rep ...]]  no handler ran and the error was reported through *)
-(*       an exception, the executor's on_error, or the catch-all policy.   *)
+(*   [exc |-> "exception" | "on_error" | "catch_all" | "abort",            *)
+(*    val |-> [calls |-> 0, ret, rep ...]]                                  *)
+(*       no handler ran and the error was reported through an exception,   *)
+(*       the executor's on_error, the catch-all policy or - only in an      *)
+(*       XTL_NO_EXCEPTIONS build, where XTL_THROW is documented to print    *)
+(*       and abort - by aborting the calling process (the harness isolates *)
+(*       every call of such a build in a child process).                    *)
 (*       Which exception type is thrown is not part of the property.       *)
 (***************************************************************************)
 EXTENDS Naturals, Sequences, FiniteSets, TLC, Json
@@ -39,16 +51,16 @@ CONSTANTS Kinds,     \* dispatcher kinds the model checker starts executions for
           Arities,   \* arities  "
           NXs,       \* numbers of undispatched arguments "
           K,         \* number of classes in use by the model checker (1..K)
-          MaxHist,   \* model-checking bound on the length of the registration history
-          MaxCells,  \* model-checking bound on the number of registered tuples
+          MaxHist,   \* model-checking bound on the length of the history
+          MaxCells,  \* model-checking bound on the number of registered tuples (per dispatcher object)
           OpClasses, \* operation classes enabled in the model checker's next-state relation
           EmitMode   \* S->C: "none" | "hist" (complete histories) | "edges" (state x action)
 
-VARIABLES cfg, reg, hist, last, pre
+VARIABLES cfg, reg, reg2, has2, seen, hist, last, pre
 
-vars    == <<cfg, reg, hist, last, pre>>
-absvars == <<cfg, reg>>
-histvars == <<cfg, reg, hist>>
+vars    == <<cfg, reg, reg2, has2, seen, hist, last, pre>>
+absvars == <<cfg, reg, reg2, has2, seen>>
+histvars == <<cfg, reg, reg2, has2, seen, hist>>
 
 ----------------------------------------------------------------------------
 (* The class hierarchy (a fact about the harness, shared with driver.cpp).  *)
@@ -59,7 +71,12 @@ ObjectsOf(k) == {10 * c + n : c \in 1..k, n \in 0..1}
 Range(s) == {s[i] : i \in 1..Len(s)}
 IndexIn(s, x) == CHOOSE i \in 1..Len(s) : s[i] = x
 
-FunctorKinds == {"map_dyn", "map_static", "fast_dyn", "fast_static"}
+MapKinds  == {"map_dyn", "map_static", "raw_map", "vmap_dyn"}
+FastKinds == {"fast_dyn", "fast_static", "raw_fast", "vfast_dyn"}
+FunctorKinds == MapKinds \cup FastKinds
+(*  map_* / fast_*  : functor_dispatcher over basic_dispatcher / basic_fast_dispatcher, dynamic or static caster
+    raw_*           : basic_dispatcher / basic_fast_dispatcher used directly with a user callback type
+    v*_dyn          : functor_dispatcher with the dynamic caster over a hierarchy with a virtual base          *)
 
 Tuples(ar, k) == CASE ar = 1 -> {<<a>> : a \in 1..k}
                    [] ar = 2 -> {<<a, b>> : a, b \in 1..k}
@@ -68,17 +85,23 @@ Tuples(ar, k) == CASE ar = 1 -> {<<a>> : a \in 1..k}
 ZeroReg(ar, k) == [t \in Tuples(ar, k) |-> 0]
 MyTuples == Tuples(cfg.ar, cfg.k)
 ClsTuple(os) == [i \in 1..Len(os) |-> ClsOf(os[i])]
+RegOf(d) == IF d = 1 THEN reg ELSE reg2
 Registered == {t \in DOMAIN reg : reg[t] # 0}
+Registered2 == {t \in DOMAIN reg2 : reg2[t] # 0}
+Live(d) == d = 1 \/ (d = 2 /\ has2)
 
 ----------------------------------------------------------------------------
 (* Outcomes.                                                                *)
 Void == [exc |-> "none", val |-> <<>>]
 NoArg == [z |-> 0]
-Handled(h, sig, os, xs, ret) ==
+HandledAs(h, sig, os, tg, xs, ret) ==
     [exc |-> "none",
      val |-> [calls |-> 1, ret |-> ret, rep |-> 0, h |-> h, sig |-> sig, dyn |-> ClsTuple(os),
-              objs |-> os, tg |-> os, xv |-> xs, xid |-> TRUE]]
+              objs |-> os, tg |-> tg, xv |-> xs, xid |-> TRUE]]
+Handled(h, sig, os, xs, ret) == HandledAs(h, sig, os, os, xs, ret)
 Err(kind, ret, rep) == [exc |-> kind, val |-> [calls |-> 0, ret |-> ret, rep |-> rep]]
+(* how "no handler for this tuple" may be reported by the calls that use XTL_THROW *)
+ThrowKinds == IF cfg.fl = "noexc" THEN {"abort", "exception"} ELSE {"exception"}
 
 RECURSIVE SumSeq(_)
 SumSeq(s) == IF s = <<>> THEN 0 ELSE Head(s) + SumSeq(Tail(s))
@@ -90,106 +113,186 @@ VisitRet(c)       == 100 + c
 ----------------------------------------------------------------------------
 (* What is observable of a dispatcher: the outcome of dispatching every     *)
 (* tuple of classes (on the first object of each class).  The harness       *)
-(* probes this after every call.                                            *)
-Cell(t) == IF reg[t] = 0 THEN [h |-> 0, objs |-> <<>>]
-           ELSE [h |-> reg[t], objs |-> [i \in 1..Len(t) |-> 10 * t[i]]]
-Tab == CASE cfg.kind = "none" -> <<>>
-         [] cfg.ar = 1 -> [a \in 1..cfg.k |-> Cell(<<a>>)]
-         [] cfg.ar = 2 -> [a \in 1..cfg.k |-> [b \in 1..cfg.k |-> Cell(<<a, b>>)]]
-         [] cfg.ar = 3 -> [a \in 1..cfg.k |-> [b \in 1..cfg.k |-> [c \in 1..cfg.k |-> Cell(<<a, b, c>>)]]]
-ProjAll == [tab |-> Tab]
+(* probes this after every call, for every live dispatcher object.          *)
+CellOf(r, t) == IF r[t] = 0 THEN [h |-> 0, objs |-> <<>>]
+                ELSE [h |-> r[t], objs |-> [i \in 1..Len(t) |-> 10 * t[i]]]
+TabOf(r) == CASE cfg.kind = "none" -> <<>>
+         [] cfg.ar = 1 -> [a \in 1..cfg.k |-> CellOf(r, <<a>>)]
+         [] cfg.ar = 2 -> [a \in 1..cfg.k |-> [b \in 1..cfg.k |-> CellOf(r, <<a, b>>)]]
+         [] cfg.ar = 3 -> [a \in 1..cfg.k |-> [b \in 1..cfg.k |-> [c \in 1..cfg.k |-> CellOf(r, <<a, b, c>>)]]]
+Tab == TabOf(reg)
+ProjAll == [tab |-> Tab, tab2 |-> IF has2 THEN TabOf(reg2) ELSE <<>>]
 
 ----------------------------------------------------------------------------
-Step(op, a, newreg, newhist, res) ==
-    /\ pre'  = [reg |-> reg]
+Step(op, a, newreg, newreg2, newhas2, newseen, newhist, res) ==
+    /\ pre'  = [reg |-> reg, reg2 |-> reg2, has2 |-> has2]
     /\ reg'  = newreg
+    /\ reg2' = newreg2
+    /\ has2' = newhas2
+    /\ seen' = newseen
     /\ hist' = newhist
     /\ cfg'  = cfg
     /\ last' = [op |-> op, a |-> a, res |-> res]
-Obs(op, a, res) == Step(op, a, reg, hist, res)
+Obs(op, a, res) == Step(op, a, reg, reg2, has2, seen, hist, res)
 
-(* functor_dispatcher<...>::insert<D...>(handler h): afterwards h is THE handler for exactly t *)
-Insert(t, h) ==
+(* The property speaks of ONE fast dispatcher per class hierarchy (the per-class indices are static).
+   A copy is a second one.  What is explored here: while two fast dispatcher objects are alive, only
+   classes that already have an index are registered (then both objects agree about every index);
+   registrations of new classes resume when the copy is gone. *)
+FreshOK(t) == cfg.kind \in FastKinds /\ has2 => Range(t) \subseteq seen
+
+(* <dispatcher d>.insert<D...>(handler h): afterwards h is THE handler for exactly t, in that object only *)
+Insert(d, t, h) ==
     /\ cfg.kind \in FunctorKinds
+    /\ Live(d)
     /\ t \in MyTuples
     /\ h > 0
-    /\ Step("Insert", [t |-> t, h |-> h], [reg EXCEPT ![t] = h], Append(hist, [op |-> "I", t |-> t, h |-> h]), Void)
+    /\ FreshOK(t)
+    /\ Step("Insert", [d |-> d, t |-> t, h |-> h],
+            IF d = 1 THEN [reg EXCEPT ![t] = h] ELSE reg,
+            IF d = 2 THEN [reg2 EXCEPT ![t] = h] ELSE reg2,
+            has2, seen \cup Range(t),
+            Append(hist, [op |-> "I", d |-> d, t |-> t, h |-> h, how |-> ""]), Void)
 
-(* functor_dispatcher<...>::erase<D...>(): afterwards nothing is registered for t *)
-Erase(t) ==
+(* <dispatcher d>.erase<D...>(): afterwards nothing is registered for t in that object *)
+Erase(d, t) ==
     /\ cfg.kind \in FunctorKinds
+    /\ Live(d)
     /\ t \in MyTuples
-    /\ Step("Erase", [t |-> t], [reg EXCEPT ![t] = 0], Append(hist, [op |-> "E", t |-> t, h |-> 0]), Void)
+    /\ Step("Erase", [d |-> d, t |-> t],
+            IF d = 1 THEN [reg EXCEPT ![t] = 0] ELSE reg,
+            IF d = 2 THEN [reg2 EXCEPT ![t] = 0] ELSE reg2,
+            has2, seen,
+            Append(hist, [op |-> "E", d |-> d, t |-> t, h |-> 0, how |-> ""]), Void)
 
-(* functor_dispatcher<...>::dispatch(args..., extras...): os = the argument objects, xs = the
-   values of the undispatched arguments *)
-Dispatch(os, xs) ==
+(* <dispatcher d>.dispatch(args..., extras...): os = the argument objects, xs = the values of the
+   undispatched arguments *)
+Dispatch(d, os, xs) ==
     /\ cfg.kind \in FunctorKinds
+    /\ Live(d)
     /\ Len(os) = cfg.ar /\ Len(xs) = cfg.nx
     /\ ClsTuple(os) \in MyTuples
-    /\ LET t == ClsTuple(os) IN
-       Obs("Dispatch", [os |-> os, xs |-> xs],
-           IF reg[t] # 0 THEN Handled(reg[t], t, os, xs, FunctorRet(reg[t], xs))
-                         ELSE Err("exception", 0, 0))
+    /\ LET t == ClsTuple(os)  r == RegOf(d) IN
+       IF r[t] # 0 THEN Obs("Dispatch", [d |-> d, os |-> os, xs |-> xs], Handled(r[t], t, os, xs, FunctorRet(r[t], xs)))
+       ELSE \E ek \in ThrowKinds : Obs("Dispatch", [d |-> d, os |-> os, xs |-> xs], Err(ek, 0, 0))
+
+(* Copies.  Dispatchers are values: a copy dispatches like the original at the time of the copy and
+   is independent of it afterwards.
+     Clone(how): the second object becomes a copy of the first
+         "ctor"   dispatcher second(first)            (an existing second object is destroyed first)
+         "assign" second = first                      (needs an existing second object)
+     Take(how): the first object takes the second one's value
+         "copy"     first = second
+         "copyctor" first is replaced by dispatcher(second)
+         "move"     first = std::move(second); the moved-from object is then destroyed
+         "movector" first is replaced by dispatcher(std::move(second)); the moved-from object is then destroyed
+         "swap"     std::swap(first, second)
+         "self"     first = first                    (changes nothing)
+     Drop2: the second object is destroyed *)
+CloneHows == {"ctor", "assign"}
+TakeHows  == {"copy", "copyctor", "move", "movector", "swap", "self"}
+Clone(how) ==
+    /\ cfg.kind \in FunctorKinds
+    /\ how \in CloneHows
+    /\ how = "assign" => has2
+    /\ Step("Clone", [how |-> how], reg, reg, TRUE, seen,
+            Append(hist, [op |-> "C", d |-> 2, t |-> <<>>, h |-> 0, how |-> how]), Void)
+Take(how) ==
+    /\ cfg.kind \in FunctorKinds
+    /\ how \in TakeHows
+    /\ how # "self" => has2
+    /\ Step("Take", [how |-> how],
+            IF how = "self" THEN reg ELSE reg2,
+            CASE how \in {"move", "movector"} -> ZeroReg(cfg.ar, cfg.k)
+              [] how = "swap" -> reg
+              [] OTHER -> reg2,
+            IF how \in {"move", "movector"} THEN FALSE ELSE has2,
+            seen,
+            Append(hist, [op |-> "T", d |-> 1, t |-> <<>>, h |-> 0, how |-> how]), Void)
+Drop2 ==
+    /\ cfg.kind \in FunctorKinds
+    /\ has2
+    /\ Step("Drop2", NoArg, reg, ZeroReg(cfg.ar, cfg.k), FALSE, seen,
+            Append(hist, [op |-> "D", d |-> 2, t |-> <<>>, h |-> 0, how |-> ""]), Void)
 
 ----------------------------------------------------------------------------
 (* static_dispatcher<executor, base, lhs list, R, (anti)symmetric, base, rhs list>::dispatch(a, b, exec).
    Its "registrations" are its type lists.  Contract (Loki): a list names a class before its
-   ancestors, and an argument whose class is not listed has no listed ancestor either (otherwise
-   the is-a match of the ancestor is what the user asked for; not explored here). *)
+   ancestors.  An argument whose class is listed reaches the handler for exactly that class.  An
+   argument whose class is NOT listed: the property statement ("the handler registered for the tuple
+   of dynamic types", "never runs some other handler") and the is-a matching that Loki documents
+   (an object of an unlisted derived class is accepted as its listed base) disagree, and the statement
+   does not name the case; L1 therefore allows both answers: on_error, or the handler for a listed
+   ancestor (then the handler reads the ancestor sub-object, whose tag is 0 in the fixtures). *)
 WellOrdered(l) == /\ \A i, j \in 1..Len(l) : i < j => (l[i] # l[j] /\ l[i] \notin Anc(l[j]))
-Covered(l, c)  == c \in Range(l) \/ Anc(c) \cap Range(l) = {}
-StaticPre(lhs, rhs, a, b) ==
-    /\ WellOrdered(lhs) /\ WellOrdered(rhs)
-    /\ Covered(lhs, ClsOf(a)) /\ Covered(rhs, ClsOf(b))
+StaticPre(lhs, rhs) == WellOrdered(lhs) /\ WellOrdered(rhs)
+(* the static types an argument of class c may be bound to by list l; 0 = no match *)
+Resolve(l, c) == IF c \in Range(l) THEN {c} ELSE {0} \cup (Anc(c) \cap Range(l))
+ViewTag(o, s) == IF s = ClsOf(o) THEN o ELSE 0
+StaticHandled(sig, os) ==
+    HandledAs(0, sig, os, [i \in 1..2 |-> ViewTag(os[i], sig[i])], <<>>, StaticRet(sig))
 
-Static(lhs, rhs, cst, a, b) ==
-    /\ StaticPre(lhs, rhs, a, b)
-    /\ LET ca == ClsOf(a)  cb == ClsOf(b) IN
-       Obs("Static", [lhs |-> lhs, rhs |-> rhs, cst |-> cst, os |-> <<a, b>>],
-           IF ca \in Range(lhs) /\ cb \in Range(rhs)
-             THEN Handled(0, <<ca, cb>>, <<a, b>>, <<>>, StaticRet(<<ca, cb>>))
-             ELSE Err("on_error", 7, 1))
+(* cst / cv: how the two type lists are cv-qualified (no influence on what must happen):
+     cv = "same"  : both bases and both lists const (cst) or both mutable (~cst);
+     cv = "mixed" : lists parallel but differently cv-qualified - base_lhs = const Base with <const classes...>,
+                    base_rhs = Base with <classes...> (the rhs type list is then a different type from the lhs list
+                    although it names the same classes) *)
+CvKinds == {"same", "mixed"}
+Static(lhs, rhs, cst, cv, a, b) ==
+    /\ StaticPre(lhs, rhs)
+    /\ cv \in CvKinds
+    /\ \E sa \in Resolve(lhs, ClsOf(a)), sb \in Resolve(rhs, ClsOf(b)) :
+       Obs("Static", [lhs |-> lhs, rhs |-> rhs, cst |-> cst, cv |-> cv, os |-> <<a, b>>],
+           IF sa # 0 /\ sb # 0 THEN StaticHandled(<<sa, sb>>, <<a, b>>) ELSE Err("on_error", 7, 1))
 
 (* Symmetric dispatch: one action performs dispatch(a, b) and dispatch(b, a).  The property asks
    that both reach the same handler, that the handler is the one for the two dynamic types in one
    of the two orders, and that each argument arrives in the position of its own type.  Which of
    the two orders is the canonical one is not part of the property (both are allowed, consistently). *)
-SymOutcomes(sig, a, b) ==
-    IF ClsOf(a) = ClsOf(b)
-      THEN {Handled(0, sig, <<a, b>>, <<>>, StaticRet(sig)), Handled(0, sig, <<b, a>>, <<>>, StaticRet(sig))}
-      ELSE IF sig = <<ClsOf(a), ClsOf(b)>> THEN {Handled(0, sig, <<a, b>>, <<>>, StaticRet(sig))}
-                                           ELSE {Handled(0, sig, <<b, a>>, <<>>, StaticRet(sig))}
-StaticSym(tl, cst, a, b) ==
-    /\ StaticPre(tl, tl, a, b) /\ StaticPre(tl, tl, b, a)
-    /\ LET ca == ClsOf(a)  cb == ClsOf(b)
-           args == [lhs |-> tl, rhs |-> tl, cst |-> cst, os |-> <<a, b>>] IN
-       IF ca \in Range(tl) /\ cb \in Range(tl)
-         THEN \E sig \in {<<ca, cb>>, <<cb, ca>>} :
-              \E r1 \in SymOutcomes(sig, a, b), r2 \in SymOutcomes(sig, b, a) :
-                 Obs("StaticSym", args, [exc |-> "none", val |-> [ab |-> r1, ba |-> r2]])
-         ELSE Obs("StaticSym", args, [exc |-> "none", val |-> [ab |-> Err("on_error", 7, 1), ba |-> Err("on_error", 7, 1)]])
+SymOutcomes(sig, a, sa, b, sb) ==
+    IF sa = sb
+      THEN {StaticHandled(sig, <<a, b>>), StaticHandled(sig, <<b, a>>)}
+      ELSE IF sig = <<sa, sb>> THEN {StaticHandled(sig, <<a, b>>)}
+                               ELSE {StaticHandled(sig, <<b, a>>)}
+StaticSym(tl, cst, cv, a, b) ==
+    /\ StaticPre(tl, tl)
+    /\ cv \in CvKinds
+    /\ LET args == [lhs |-> tl, rhs |-> tl, cst |-> cst, cv |-> cv, os |-> <<a, b>>] IN
+       \E sa \in Resolve(tl, ClsOf(a)), sb \in Resolve(tl, ClsOf(b)) :
+         IF sa # 0 /\ sb # 0
+           THEN \E sig \in {<<sa, sb>>, <<sb, sa>>} :
+                \E r1 \in SymOutcomes(sig, a, sa, b, sb), r2 \in SymOutcomes(sig, b, sb, a, sa) :
+                   Obs("StaticSym", args, [exc |-> "none", val |-> [ab |-> r1, ba |-> r2]])
+           ELSE Obs("StaticSym", args, [exc |-> "none", val |-> [ab |-> Err("on_error", 7, 1), ba |-> Err("on_error", 7, 1)]])
 
 ----------------------------------------------------------------------------
-(* Acyclic visitor: visitable o accepts a visitor that visits exactly the classes in vis
-   (a sequence of class ids).  v names the variant of base_visitable:
+(* Acyclic visitor: visitable o accepts the visitor named m of the harness' menu, which visits exactly
+   the classes VisitorMenu[m] of o's hierarchy.  v names the variant of base_visitable:
      default / cdefault     : default_catch_all  (returns R())
      throwing / void        : throwing_catch_all
-     recording / crecording : a user policy that records what it was given and returns 999 *)
+     recording / crecording : a user policy that records what it was given and returns 999
+   The match is exact (an object of class D is not visited by a visitor of A only). *)
 Variants == {"default", "cdefault", "throwing", "void", "recording", "crecording"}
-Accept(v, vis, o) ==
+VisitorMenu == [AB |-> {1, 2}, All |-> {1, 2, 3, 4, 5}, C |-> {3}, None |-> {}, BaseD |-> {4, 5},
+                Sep |-> {2, 3},          \* derives from visitor<B> and visitor<C> separately, not through a type list
+                Derived |-> {1, 2, 5},   \* derives from the visitor AB and adds D
+                WrongConst |-> {}]       \* implements visit for A and B of the other constness: visits nothing here
+Accept(v, m, o) ==
     /\ v \in Variants
-    /\ LET c == ClsOf(o) IN
-       Obs("Accept", [v |-> v, vis |-> vis, o |-> o],
-           IF c \in Range(vis)
-             THEN Handled(0, <<c>>, <<o>>, <<>>, IF v = "void" THEN 0 ELSE VisitRet(c))
-             ELSE CASE v \in {"default", "cdefault"} -> Err("catch_all", 0, 0)
-                    [] v \in {"throwing", "void"}    -> Err("exception", 0, 0)
-                    [] OTHER -> [exc |-> "catch_all", val |-> [calls |-> 0, ret |-> 999, rep |-> 1, psig |-> c, pobj |-> o]])
+    /\ m \in DOMAIN VisitorMenu
+    /\ LET c == ClsOf(o)  a == [v |-> v, m |-> m, o |-> o] IN
+       IF c \in VisitorMenu[m]
+         THEN Obs("Accept", a, Handled(0, <<c>>, <<o>>, <<>>, IF v = "void" THEN 0 ELSE VisitRet(c)))
+         ELSE CASE v \in {"default", "cdefault"} -> Obs("Accept", a, Err("catch_all", 0, 0))
+                [] v \in {"throwing", "void"}    -> \E ek \in ThrowKinds : Obs("Accept", a, Err(ek, 0, 0))
+                [] OTHER -> Obs("Accept", a, [exc |-> "catch_all", val |-> [calls |-> 0, ret |-> 999, rep |-> 1, psig |-> c, pobj |-> o]])
 
-(* Cyclic visitor: the visitor names every class of the hierarchy; accept reaches visit(dynamic type) *)
-Cyclic(cst, o) ==
-    Obs("Cyclic", [cst |-> cst, o |-> o], Handled(0, <<ClsOf(o)>>, <<o>>, <<>>, VisitRet(ClsOf(o))))
+(* Cyclic visitor: the visitor names every class of the hierarchy; accept reaches visit(dynamic type).
+   rv: "long" (the value visit returns comes back) or "void". *)
+Cyclic(cst, rv, o) ==
+    /\ rv \in {"long", "void"}
+    /\ Obs("Cyclic", [cst |-> cst, rv |-> rv, o |-> o],
+           Handled(0, <<ClsOf(o)>>, <<o>>, <<>>, IF rv = "void" THEN 0 ELSE VisitRet(ClsOf(o))))
 
 ----------------------------------------------------------------------------
 (* Model checker's next-state relation.                                     *)
@@ -197,50 +300,65 @@ C(x) == x \in OpClasses
 
 (* menus compiled into the harness (driver.cpp: static_menu, the visitor sets) *)
 StaticMenu == {
-    [lhs |-> <<1, 2, 3>>, rhs |-> <<1, 2, 3>>, sym |-> FALSE, cst |-> TRUE],
-    [lhs |-> <<1, 2, 3>>, rhs |-> <<1, 2, 3>>, sym |-> TRUE, cst |-> TRUE],
-    [lhs |-> <<3, 1, 2>>, rhs |-> <<3, 1, 2>>, sym |-> TRUE, cst |-> FALSE],
-    [lhs |-> <<2, 1>>, rhs |-> <<3, 2>>, sym |-> FALSE, cst |-> FALSE],
-    [lhs |-> <<5, 1, 2, 3, 4>>, rhs |-> <<5, 1, 2, 3, 4>>, sym |-> FALSE, cst |-> TRUE],
-    [lhs |-> <<5, 1, 2, 3, 4>>, rhs |-> <<5, 1, 2, 3, 4>>, sym |-> TRUE, cst |-> FALSE],
-    [lhs |-> <<5, 2>>, rhs |-> <<3>>, sym |-> FALSE, cst |-> FALSE],
-    [lhs |-> <<2, 5, 1>>, rhs |-> <<2, 5, 1>>, sym |-> TRUE, cst |-> TRUE],
-    [lhs |-> <<3, 2, 1>>, rhs |-> <<1, 2, 3>>, sym |-> FALSE, cst |-> FALSE] }
-VisitorSets == {<<1, 2>>, <<1, 2, 3, 4, 5>>, <<3>>, <<>>, <<4, 5>>}
+    [lhs |-> <<1, 2, 3>>, rhs |-> <<1, 2, 3>>, sym |-> FALSE, cst |-> TRUE, cv |-> "same"],
+    [lhs |-> <<1, 2, 3>>, rhs |-> <<1, 2, 3>>, sym |-> TRUE, cst |-> TRUE, cv |-> "same"],
+    [lhs |-> <<3, 1, 2>>, rhs |-> <<3, 1, 2>>, sym |-> TRUE, cst |-> FALSE, cv |-> "same"],
+    [lhs |-> <<2, 1>>, rhs |-> <<3, 2>>, sym |-> FALSE, cst |-> FALSE, cv |-> "same"],
+    [lhs |-> <<5, 1, 2, 3, 4>>, rhs |-> <<5, 1, 2, 3, 4>>, sym |-> FALSE, cst |-> TRUE, cv |-> "same"],
+    [lhs |-> <<5, 1, 2, 3, 4>>, rhs |-> <<5, 1, 2, 3, 4>>, sym |-> TRUE, cst |-> FALSE, cv |-> "same"],
+    [lhs |-> <<5, 2>>, rhs |-> <<3>>, sym |-> FALSE, cst |-> FALSE, cv |-> "same"],
+    [lhs |-> <<2, 5, 1>>, rhs |-> <<2, 5, 1>>, sym |-> TRUE, cst |-> TRUE, cv |-> "same"],
+    [lhs |-> <<3, 2, 1>>, rhs |-> <<1, 2, 3>>, sym |-> FALSE, cst |-> FALSE, cv |-> "same"],
+    [lhs |-> <<1, 4>>, rhs |-> <<2, 4>>, sym |-> FALSE, cst |-> TRUE, cv |-> "same"],
+    [lhs |-> <<2, 1, 4>>, rhs |-> <<2, 1, 4>>, sym |-> TRUE, cst |-> FALSE, cv |-> "same"],
+    [lhs |-> <<1, 2, 3>>, rhs |-> <<1, 2, 3>>, sym |-> TRUE, cst |-> TRUE, cv |-> "mixed"],
+    [lhs |-> <<1, 2, 3>>, rhs |-> <<1, 2, 3>>, sym |-> FALSE, cst |-> TRUE, cv |-> "mixed"],
+    [lhs |-> <<3, 1, 2, 4>>, rhs |-> <<3, 1, 2, 4>>, sym |-> TRUE, cst |-> TRUE, cv |-> "mixed"] }
 AllObjects == ObjectsOf(5)
 
-XsDomain(nx) == CASE nx = 0 -> {<<>>} [] nx = 1 -> {<<5>>, <<0>>} [] OTHER -> {<<5, 9>>, <<2, 0>>}
+XsDomain(nx) == CASE nx = 0 -> {<<>>} [] nx = 1 -> {<<5>>, <<0>>} [] nx = 2 -> {<<5, 9>>, <<2, 0>>} [] OTHER -> {<<1, 2, 4>>, <<0, 9, 0>>}
 ObjTuples(ar, k) == CASE ar = 1 -> {<<a>> : a \in ObjectsOf(k)}
                       [] ar = 2 -> {<<a, b>> : a, b \in ObjectsOf(k)}
                       [] OTHER  -> {<<a, b, c>> : a, b, c \in {10 * i : i \in 1..k}}
 (* representative argument tuples: first objects of each class, plus the second objects for arity <= 2 *)
+SlotsLive == {d \in 1..2 : Live(d)}
 
-NInsert   == C("insert")   /\ \E t \in MyTuples : Insert(t, Len(hist) + 1)          \* a fresh handler per registration
-NInsert2  == C("insert2")  /\ \E t \in MyTuples, h \in 1..2 : Insert(t, h)
-NErase    == C("erase")    /\ \E t \in MyTuples : Erase(t)
-NDispatch == C("dispatch") /\ \E os \in ObjTuples(cfg.ar, cfg.k), xs \in XsDomain(cfg.nx) : Dispatch(os, xs)
-NStatic   == C("static")   /\ \E m \in StaticMenu, a, b \in AllObjects : ~m.sym /\ Static(m.lhs, m.rhs, m.cst, a, b)
-NStaticSym == C("static")  /\ \E m \in StaticMenu, a, b \in AllObjects : m.sym /\ StaticSym(m.lhs, m.cst, a, b)
-NAccept   == C("accept")   /\ \E v \in Variants, vis \in VisitorSets, o \in AllObjects : Accept(v, vis, o)
-NCyclic   == C("cyclic")   /\ \E cst \in BOOLEAN, o \in AllObjects : Cyclic(cst, o)
+NInsert   == C("insert")   /\ \E d \in SlotsLive, t \in MyTuples : Insert(d, t, Len(hist) + 1)          \* a fresh handler per registration
+NInsert2  == C("insert2")  /\ \E d \in SlotsLive, t \in MyTuples, h \in 1..2 : Insert(d, t, h)
+NErase    == C("erase")    /\ \E d \in SlotsLive, t \in MyTuples : Erase(d, t)
+NDispatch == C("dispatch") /\ \E d \in SlotsLive, os \in ObjTuples(cfg.ar, cfg.k), xs \in XsDomain(cfg.nx) : Dispatch(d, os, xs)
+NClone    == C("clone")    /\ \E how \in CloneHows : Clone(how)
+NTake     == C("clone")    /\ \E how \in TakeHows : Take(how)
+NDrop2    == C("clone")    /\ Drop2
+NStatic   == C("static")   /\ \E m \in StaticMenu, a, b \in AllObjects : ~m.sym /\ Static(m.lhs, m.rhs, m.cst, m.cv, a, b)
+NStaticSym == C("static")  /\ \E m \in StaticMenu, a, b \in AllObjects : m.sym /\ StaticSym(m.lhs, m.cst, m.cv, a, b)
+NAccept   == C("accept")   /\ \E v \in Variants, m \in DOMAIN VisitorMenu, o \in AllObjects : Accept(v, m, o)
+NCyclic   == C("cyclic")   /\ \E cst \in BOOLEAN, rv \in {"long", "void"}, o \in AllObjects : Cyclic(cst, rv, o)
 
-Next == NInsert \/ NInsert2 \/ NErase \/ NDispatch \/ NStatic \/ NStaticSym \/ NAccept \/ NCyclic
+Next == NInsert \/ NInsert2 \/ NErase \/ NDispatch \/ NClone \/ NTake \/ NDrop2 \/ NStatic \/ NStaticSym \/ NAccept \/ NCyclic
+
+(* combinations of arity and number of undispatched arguments compiled into the harness *)
+CfgOK(c) == /\ (c.ar = 1 => c.nx \in {0, 1, 3}) /\ (c.ar = 2 => c.nx <= 2) /\ (c.ar = 3 => c.nx <= 1)
 
 Init ==
-    /\ cfg \in [kind : Kinds, ar : Arities, nx : NXs, k : {K}]
-    /\ (cfg.ar = 1 => cfg.nx <= 1) /\ (cfg.ar = 3 => cfg.nx <= 1)       \* combinations compiled into the harness
+    /\ cfg \in [kind : Kinds, ar : Arities, nx : NXs, k : {K}, fl : {"exc"}]
+    /\ CfgOK(cfg)
     /\ reg = ZeroReg(cfg.ar, cfg.k)
+    /\ reg2 = ZeroReg(cfg.ar, cfg.k)
+    /\ has2 = FALSE
+    /\ seen = {}
     /\ hist = <<>>
     /\ last = [op |-> "Init", a |-> NoArg, res |-> Void]
-    /\ pre = [reg |-> reg]
+    /\ pre = [reg |-> reg, reg2 |-> reg2, has2 |-> has2]
 
 Spec == Init /\ [][Next]_vars
 
-Bound == Len(hist) <= MaxHist /\ Cardinality(Registered) <= MaxCells
+Bound == Len(hist) <= MaxHist /\ Cardinality(Registered) <= MaxCells /\ Cardinality(Registered2) <= MaxCells
 
 (* S->C enumeration (ACTION_CONSTRAINT): writes, as JSON lines on TLC's output,
-   "hist":  every complete registration history of length MaxHist (VIEW histvars: one state per history);
-   "edges": every transition (pre-state, call) of the state graph (VIEW absvars: every table once). *)
+   "hist":  every complete history of length MaxHist (VIEW histvars: one state per history);
+   "edges": every transition (pre-state, call) of the state graph (VIEW absvars: every table once;
+            used without the copy operations, so that the source state is the table of slot 1). *)
 Emit ==
     /\ (EmitMode = "hist" /\ Len(hist') = MaxHist /\ Len(hist) < MaxHist) =>
            PrintT("@H@" \o ToJson([cfg |-> cfg', hist |-> hist']))
@@ -250,45 +368,86 @@ Emit ==
 ----------------------------------------------------------------------------
 (* Theorems of the specification itself, checked by TLC (they guard the oracle). *)
 TypeOK ==
-    /\ cfg.kind \in FunctorKinds \cup {"none"} /\ cfg.ar \in 1..3 /\ cfg.nx \in 0..2 /\ cfg.k \in 1..5
-    /\ DOMAIN reg = MyTuples
-    /\ \A t \in DOMAIN reg : reg[t] \in Nat
-    /\ last.res.exc \in {"none", "exception", "on_error", "catch_all"}
+    /\ cfg.kind \in FunctorKinds \cup {"none"} /\ cfg.ar \in 1..3 /\ cfg.nx \in 0..3 /\ cfg.k \in 1..5
+    /\ cfg.fl \in {"exc", "noexc"}
+    /\ DOMAIN reg = MyTuples /\ DOMAIN reg2 = MyTuples
+    /\ \A t \in DOMAIN reg : reg[t] \in Nat /\ reg2[t] \in Nat
+    /\ has2 \in BOOLEAN
+    /\ ~has2 => reg2 = ZeroReg(cfg.ar, cfg.k)
+    /\ seen \subseteq 1..cfg.k
+    /\ last.res.exc \in {"none", "exception", "on_error", "catch_all", "abort"}
 
-(* "registered" means: the last event of the history about t is an Insert, and reg[t] is its handler *)
+(* "registered" means: the last event of the history about t is an Insert, and reg[t] is its handler
+   (for executions that never copied a dispatcher) *)
 RECURSIVE LastAbout(_, _)
 LastAbout(h, t) == IF h = <<>> THEN 0
                    ELSE LET e == h[Len(h)] IN IF e.t = t THEN e.h ELSE LastAbout(SubSeq(h, 1, Len(h) - 1), t)
-RegIsHistory == \A t \in DOMAIN reg : reg[t] = LastAbout(hist, t)
+NoCopies(h) == \A i \in 1..Len(h) : h[i].op \in {"I", "E"} /\ h[i].d = 1
+RegIsHistory == NoCopies(hist) => \A t \in DOMAIN reg : reg[t] = LastAbout(hist, t)
 
-(* an error outcome means no handler ran; a normal outcome means exactly one ran, for exactly the
-   dynamic types of the arguments, and the arguments arrived in the positions of their types *)
-IsOutcome(r) == /\ (r.exc # "none" => r.val.calls = 0)
-                /\ (r.exc = "none" => /\ r.val.calls = 1 /\ r.val.rep = 0
-                                      /\ r.val.sig = r.val.dyn /\ r.val.xid
-                                      /\ \A i \in 1..Len(r.val.objs) : ClsOf(r.val.objs[i]) = r.val.sig[i])
+(* ... and with copies: the table of an object is determined by the history through the lineage of
+   values (an independent formulation: replay the history on a pair of tables) *)
+RECURSIVE Replay(_, _)
+Replay(h, z) ==
+    IF h = <<>> THEN [r1 |-> z, r2 |-> z, two |-> FALSE]
+    ELSE LET s == Replay(SubSeq(h, 1, Len(h) - 1), z)
+             e == h[Len(h)] IN
+         CASE e.op = "I" -> IF e.d = 1 THEN [s EXCEPT !.r1 = [s.r1 EXCEPT ![e.t] = e.h]] ELSE [s EXCEPT !.r2 = [s.r2 EXCEPT ![e.t] = e.h]]
+           [] e.op = "E" -> IF e.d = 1 THEN [s EXCEPT !.r1 = [s.r1 EXCEPT ![e.t] = 0]] ELSE [s EXCEPT !.r2 = [s.r2 EXCEPT ![e.t] = 0]]
+           [] e.op = "C" -> [s EXCEPT !.r2 = s.r1, !.two = TRUE]
+           [] e.op = "D" -> [s EXCEPT !.r2 = z, !.two = FALSE]
+           [] e.op = "T" -> CASE e.how = "self" -> s
+                              [] e.how = "swap" -> [s EXCEPT !.r1 = s.r2, !.r2 = s.r1]
+                              [] e.how \in {"move", "movector"} -> [s EXCEPT !.r1 = s.r2, !.r2 = z, !.two = FALSE]
+                              [] OTHER -> [s EXCEPT !.r1 = s.r2]
+TablesAreHistory == LET s == Replay(hist, ZeroReg(cfg.ar, cfg.k)) IN reg = s.r1 /\ reg2 = s.r2 /\ has2 = s.two
+
+(* an error outcome means no handler ran; a normal outcome means exactly one ran, for the dynamic types
+   of the arguments (or, static dispatcher and unlisted class only, an ancestor), and the arguments
+   arrived in the positions of their types *)
+IsA(c, s) == c = s \/ s \in Anc(c)
+IsOutcome(r, exact) ==
+    /\ (r.exc # "none" => r.val.calls = 0)
+    /\ (r.exc = "none" => /\ r.val.calls = 1 /\ r.val.rep = 0 /\ r.val.xid
+                          /\ exact => r.val.sig = r.val.dyn
+                          /\ \A i \in 1..Len(r.val.objs) : /\ ClsOf(r.val.objs[i]) = r.val.dyn[i]
+                                                            /\ IsA(r.val.dyn[i], r.val.sig[i]))
 OutcomeOK ==
-    /\ last.op \in {"Dispatch", "Static", "Accept", "Cyclic"} => IsOutcome(last.res)
+    /\ last.op \in {"Dispatch", "Accept", "Cyclic"} => IsOutcome(last.res, TRUE)
+    /\ last.op = "Static" => /\ IsOutcome(last.res, FALSE)
+                             /\ (ClsOf(last.a.os[1]) \in Range(last.a.lhs) /\ ClsOf(last.a.os[2]) \in Range(last.a.rhs))
+                                   => (last.res.exc = "none" /\ last.res.val.sig = last.res.val.dyn)
     /\ last.op = "StaticSym" =>
-          /\ IsOutcome(last.res.val.ab) /\ IsOutcome(last.res.val.ba)
+          /\ IsOutcome(last.res.val.ab, FALSE) /\ IsOutcome(last.res.val.ba, FALSE)
           /\ last.res.val.ab.exc = last.res.val.ba.exc
           /\ last.res.val.ab.exc = "none" =>
                 /\ last.res.val.ab.val.sig = last.res.val.ba.val.sig          \* same handler both ways
                 /\ Range(last.res.val.ab.val.objs) = Range(last.a.os)         \* the same two objects
                 /\ Range(last.res.val.ba.val.objs) = Range(last.a.os)
 
-(* a dispatch is answered from the table as it was before the call, for exactly the dynamic types:
-   the handler registered for that tuple and no other; an unregistered tuple (never registered,
-   erased, or only a permutation registered) is an error *)
+(* a dispatch is answered from the table of that object as it was before the call, for exactly the
+   dynamic types: the handler registered for that tuple and no other; an unregistered tuple (never
+   registered, erased, or only a permutation registered) is an error *)
 DispatchExact ==
     last.op = "Dispatch" =>
-        LET t == ClsTuple(last.a.os) IN
-        /\ (pre.reg[t] # 0) = (last.res.exc = "none")
-        /\ last.res.exc = "none" => /\ last.res.val.h = pre.reg[t] /\ last.res.val.sig = t
+        LET t == ClsTuple(last.a.os)
+            r == IF last.a.d = 1 THEN pre.reg ELSE pre.reg2 IN
+        /\ (r[t] # 0) = (last.res.exc = "none")
+        /\ last.res.exc = "none" => /\ last.res.val.h = r[t] /\ last.res.val.sig = t
                                     /\ last.res.val.objs = last.a.os /\ last.res.val.xv = last.a.xs
 
-(* calls that look something up never change the table; a registration changes exactly one cell *)
-LookupsPure == [][last'.op \notin {"Insert", "Erase"} => reg' = reg /\ hist' = hist]_vars
+(* calls that look something up never change a table; a registration changes exactly one cell of
+   exactly one object; a copy equals its source and leaves the source alone *)
+LookupsPure == [][last'.op \notin {"Insert", "Erase", "Clone", "Take", "Drop2"} =>
+                    reg' = reg /\ reg2' = reg2 /\ has2' = has2 /\ hist' = hist]_vars
 OneCell     == [][last'.op \in {"Insert", "Erase"} =>
-                    \A t \in DOMAIN reg : t # last'.a.t => reg'[t] = reg[t]]_vars
+                    /\ \A t \in DOMAIN reg : (t # last'.a.t \/ last'.a.d # 1) => reg'[t] = reg[t]
+                    /\ \A t \in DOMAIN reg2 : (t # last'.a.t \/ last'.a.d # 2) => reg2'[t] = reg2[t]
+                    /\ has2' = has2]_vars
+CopiesAreValues == [][/\ last'.op = "Clone" => (reg2' = reg /\ reg' = reg /\ has2')
+                      /\ (last'.op = "Take" /\ last'.a.how \in {"copy", "copyctor"}) => (reg' = reg2 /\ reg2' = reg2 /\ has2')
+                      /\ (last'.op = "Take" /\ last'.a.how \in {"move", "movector"}) => (reg' = reg2 /\ ~has2')
+                      /\ (last'.op = "Take" /\ last'.a.how = "swap") => (reg' = reg2 /\ reg2' = reg /\ has2')
+                      /\ (last'.op = "Take" /\ last'.a.how = "self") => (reg' = reg /\ reg2' = reg2 /\ has2' = has2)
+                      /\ last'.op = "Drop2" => (reg' = reg /\ ~has2')]_vars
 =============================================================================
